@@ -407,9 +407,9 @@ func minInt(a, b int) int {
 }
 
 func genC12(r *hx.Rng, tier string, w io.Writer) {
-	n := 400
+	n, cacheEvery := 400, 4
 	if tier == "thorough" {
-		n = 6000
+		n, cacheEvery = 5000, 8 // every cache save fsyncs four files
 	}
 	fmt.Fprintln(w, "reset")
 	// fixed (golden) values first
@@ -485,7 +485,7 @@ func genC12(r *hx.Rng, tier string, w io.Writer) {
 		}
 		fmt.Fprintln(w, "enc-state", stateArgs(&st, loc))
 		// cache files: the REAL pkg/cache SaveToDisk / LoadFromDisk (every 4th value; each save fsyncs four files)
-		if i%4 == 1 {
+		if i%cacheEvery == 1 {
 			fmt.Fprintf(w, "cache-sh k=%d %s keyok=1\n", sh.Height(), shLine)
 			fmt.Fprintf(w, "cache-data k=%d %s\n", ru64(r), dataArgs(&d)+dataNe(&d))
 		}
